@@ -378,7 +378,7 @@ func execC17(w *c17W, x *Exec) *Outcome {
 					case "getSchema":
 						srv.Srv.GetSchema(ctx, &gripql.GraphID{Graph: op.G})
 					case "submit":
-						if job, e := srv.Srv.Submit(ctx, &gripql.GraphQuery{Graph: op.G, Query: gen.StmtsOf(gen.V())}); e == nil && job != nil {
+						if job, e := srv.submitUnary(&gripql.GraphQuery{Graph: op.G, Query: gen.StmtsOf(gen.V())}); e == nil && job != nil {
 							for k := 0; k < 100; k++ {
 								st, e := srv.Srv.GetJob(ctx, job)
 								if e != nil || st.State == gripql.JobState_COMPLETE || st.State == gripql.JobState_ERROR {
